@@ -129,6 +129,7 @@ def _bounded_batch(args):
     c = engine.CONTRACTS[cname]
     fails, used, skipped, errors = [], 0, 0, []
     sample = None
+    n = n * int((c.opts or {}).get("fuzz_mult", 1))      # cheap run-time contracts with many leaves ask for more inputs
     for k in range(n):
         seed = seed0 * 1000003 + k
         try:
